@@ -40,9 +40,12 @@ def run(tier):
                             workers=vlib.NCPU, timeout=1200)
         chk.add_tlc("M interleavings " + nm, r)
         if len(callers) == 3:
-            # too many transitions to emit one by one: simulate behaviours instead
-            continue
-        r = bc.tlc_with_cfg("MCBreaker", bc.gen_cfg_text(callers, cs, False), "gen.cfg", workers=8, timeout=1800)
+            # 12 M transitions: too many to emit and replay one by one; TLC random behaviours (every successor it
+            # considers on the way is emitted) give a sample of ~10^5 transitions, replayed like the others
+            r = bc.tlc_with_cfg("MCBreaker", bc.gen_cfg_text(callers, cs, False), "gen.cfg", workers=1, timeout=1800,
+                                simulate="num=3000", depth=60)
+        else:
+            r = bc.tlc_with_cfg("MCBreaker", bc.gen_cfg_text(callers, cs, False), "gen.cfg", workers=8, timeout=1800)
         scripts, ntr = bc.scripts_from_transitions(r, prefix="conc" + nm)
         tp = bc.replay(binp, scripts, sd, "conc" + nm, full=True)
         chk.cov["traces_validated_against_impl"] += len(scripts)
